@@ -9,7 +9,7 @@ QUICK, THOROUGH = "quick", "thorough"
 def jt_behaviours(tier, tag="jt", maxlen=None):
     """Exhaustive JsonText model check + behaviour emission (shared by several properties)."""
     d = wdir("beh")
-    ml = maxlen or (8 if tier == QUICK else 10)
+    ml = maxlen or (8 if tier == QUICK else 9)
     path = os.path.join(d, "jt_%d.ndjson" % ml)
     stats_p = path + ".stats"
     src = [os.path.join(vlib.TLA, f) for f in ("JsonText.tla", "MC_JsonText.tla", "Numbers.tla")]
